@@ -311,11 +311,15 @@ func oneshotPreset(r *rng) proto.OneshotOpts {
 // (defaults relied upon), missing (drops one required value), weird (NaN,
 // infinities, out-of-range values).
 func constsFor(r *rng, p *program) (cs []proto.Const, mode string) {
-	mode = pick(r, []string{"full", "full", "byname", "partial", "partial", "missing", "weird", "none"})
+	mode = pick(r, []string{"full", "full", "byname", "partial", "partial", "missing", "weird", "none", "foreign"})
 	vals := []string{"0", "1", "2", "3", "7", "-1", "0.5", "2.5", "-3.75", "100", "65536"}
 	weird := []string{"NaN", "+Inf", "-Inf", "4294967296", "-2147483649", "1e30", "0.1"}
 	if mode == "none" {
 		return nil, mode
+	}
+	if mode == "foreign" {
+		// a pipeline-wide map none of whose keys names an override of THIS module
+		return []proto.Const{{Key: "unrelated_pipeline_constant", Value: pick(r, vals)}, {Key: "60000", Value: pick(r, vals)}}, mode
 	}
 	dropped := false
 	for _, ov := range p.info.Overrides {
